@@ -1,4 +1,4 @@
-CONSTANTS Comp = "flagged" DBSeq <- DB2 KeySeq <- Key3 PutKeys <- PutK1 Vals <- Val1 Big = 3 MaxFlush = 2 MaxDrops = 2 MaxBulk = 0
+CONSTANTS Comp = "flagged" DBSeq <- DB2 KeySeq <- Key3 PutKeys <- PutK1 Vals <- Val1 Vias <- ViaBoth Big = 3 MaxFlush = 2 MaxDrops = 2 MaxBulk = 0
 SPECIFICATION Spec
 VIEW View
 ACTION_CONSTRAINT EmitEdge
